@@ -486,6 +486,49 @@ class Session:
         except Exception:  # noqa
             pass
 
+    def noise(self, state):
+        """
+        Calls that the specification refuses in `state` (they stutter: RefusedUnchanged), made through fresh handles:
+        a duplicate name, a member of another block offered to a link list / as feature data, a delete of something
+        absent.  Returns the description of the first call that was ACCEPTED (None when all were refused).
+        """
+        nixio = self.nixio
+        objs = {o["id"]: o for o in state["objs"]}
+        blocks = [o for o in state["objs"] if o["kind"] == "block"]
+        cands = []
+        for b in blocks:
+            cands.append(("create_block_duplicate", lambda b=b: self.nf.create_block(self.conc.name(b["name"]), "t")))
+        for o in state["objs"]:
+            own = objs.get(o["owner"])
+            if o["kind"] == "array" and own:
+                cands.append(("create_data_array_duplicate",
+                              lambda o=o: self.obj(o["owner"], fresh=True).create_data_array(self.conc.name(o["name"]), "t", data=[1.0])))
+                foreign = [t for t in state["objs"] if t["kind"] in ("tag", "mtag") and t["owner"] != o["owner"]]
+                for t in foreign[:1]:
+                    cands.append(("create_feature_foreign_array",
+                                  lambda o=o, t=t: self.obj(t["id"], fresh=True).create_feature(self.obj(o["id"], fresh=True), nixio.LinkType.Untagged)))
+                    cands.append(("references_append_foreign_array",
+                                  lambda o=o, t=t: self.obj(t["id"], fresh=True).references.append(self.obj(o["id"], fresh=True))))
+                fg = [g for g in state["objs"] if g["kind"] == "group" and g["owner"] != o["owner"]]
+                for g in fg[:1]:
+                    cands.append(("group_append_foreign_array",
+                                  lambda o=o, g=g: self.obj(g["id"], fresh=True).data_arrays.append(self.obj(o["id"], fresh=True))))
+            if o["kind"] == "section":
+                cands.append(("create_section_duplicate",
+                              lambda o=o: (self.nf if o["owner"] == 0 else self.obj(o["owner"], fresh=True)).create_section(self.conc.name(o["name"]), "t")))
+            if o["kind"] == "source" and own:
+                cands.append(("create_source_duplicate",
+                              lambda o=o: self.obj(o["owner"], fresh=True).create_source(self.conc.name(o["name"]), "t")))
+        cands.append(("delete_absent_block", lambda: self.nf.blocks.__delitem__("no such block")))
+        self.rnd.shuffle(cands)
+        for what, fn in cands[:2]:
+            try:
+                fn()
+            except Exception:  # noqa
+                continue
+            return what
+        return None
+
     def touch(self):
         """
         What a long-running client does between calls: every long-lived handle looks at its containers and link
@@ -556,8 +599,12 @@ class Session:
         self.nf.close()
         self.handles = {}
         self.handles_b = {}
-        self.nf = self.nixio.File.open(self.path, mode)
-        self.nf.auto_update_timestamps = self.auto
+        # the switch is given at open time or set afterwards (C19: "set at open time or toggled later")
+        if self.rnd.random() < 0.5:
+            self.nf = self.nixio.File.open(self.path, mode, auto_update_timestamps=self.auto)
+        else:
+            self.nf = self.nixio.File.open(self.path, mode)
+            self.nf.auto_update_timestamps = self.auto
         return self.nf
 
     def close(self):
@@ -711,7 +758,7 @@ class Session:
                 elif k == "mtag":
                     ret = dest.create_multi_tag(name=nm_, copy_from=src, keep_copy_id=keep)
                 elif k == "section":
-                    ret = dest.copy_section(src, children=True, keep_id=keep, name=nm_)
+                    ret = dest.copy_section(src, children=act.get("deep", True), keep_id=keep, name=nm_)
                 elif k == "property":
                     ret = dest.create_property(name=nm_, copy_from=src, keep_copy_id=keep)
                 else:
@@ -767,6 +814,9 @@ class Session:
         src = act["src"]
 
         def in_sub(x):
+            if not act.get("deep", True):
+                # non-recursive section copy: the section and its properties
+                return x == src or (self.meta[x][1] == src and self.meta[x][0] == "property")
             while x != 0:
                 if x == src:
                     return True
